@@ -18,7 +18,8 @@
    the optional "types ... end" block):
      - R1 is decided by a source-level cartesian value analysis (flow-sensitive abstract
        execution of init and body over finite value sets, branches joined, loop closed by
-       Kleene iteration; budgets 100 iterations / 25 values as FiniteFixedPointTyper); every
+       Kleene iteration; budgets 100 iterations / 25 values as FiniteFixedPointTyper, values
+       below 2^64 in numerator and denominator); every
        atom of every condition must have at most 25 valuations of its variables at the program
        point where it is evaluated.  Declared types are trusted (Polar locks them).
      - R2 syntactically; the location positions of Normal / Uniform / Laplace are exempt
@@ -72,10 +73,18 @@ Definition prog_vars (p : prog) (D : tenv) : list var :=
 Definition dedup (vs : list Qc) : list Qc :=
   fold_right (fun v acc => if mem v acc then acc else v :: acc) [] vs.
 
+(* magnitude cap (conservative, keeps the analysis cheap on x = x**2): a value whose numerator or
+   denominator exceeds 2^64 makes the variable non-finite for the analysis *)
+Definition small (q : Qc) : bool :=
+  Z.ltb (Z.abs (Qnum (this q))) (2 ^ 64)%Z && Z.ltb (Zpos (Qden (this q))) (2 ^ 64)%Z.
+
 Definition expr_vals (T : tenv) (e : expr) : option (list Qc) :=
   match valuations all_vars T (nodup string_dec (vars_of e)) with
   | Some envs =>
-      if Nat.leb (List.length envs) maxv then Some (dedup (map (fun env => eval e (env_state env)) envs)) else None
+      if Nat.leb (List.length envs) maxv then
+        let vs := dedup (map (fun env => eval e (env_state env)) envs) in
+        if forallb small vs then Some vs else None
+      else None
   | None => None
   end.
 
